@@ -28,6 +28,19 @@ import (
 
 var R *mon.Run
 
+// out receives what verifyProof observes: the Run in the main process, the
+// worker's sink in the child process of the shared-prover section.
+var out mon.Sink
+var worker *mon.Worker
+
+func harnessErr(format string, a ...any) {
+	if worker != nil {
+		worker.HarnessError(fmt.Sprintf(format, a...))
+		return
+	}
+	R.HarnessError(format, a...)
+}
+
 // ------------------------------------------------------------------ checking one proof against its original
 
 type proofStats struct {
@@ -112,18 +125,18 @@ func checkPositions(src string, body, orig *cell.Cell, requested [][]int, wit ma
 		for k, j := range pth {
 			if isPruned(p) && !isPruned(o) {
 				wit["requested_position"], wit["pruned_at_its_ancestor"] = pth, pth[:k]
-				R.Violation("pruned-above-the-requested-position@"+src, wit)
+				out.Violation("pruned-above-the-requested-position@"+src, wit)
 				return false
 			}
 			if j >= len(p.Refs) || j >= len(o.Refs) {
-				R.HarnessError("requested position %v does not exist in the proof although all kept cells equal the original", pth)
+				harnessErr("requested position %v does not exist in the proof although all kept cells equal the original", pth)
 				return false
 			}
 			p, o = p.Refs[j], o.Refs[j]
 		}
 		if !isPruned(p) {
 			wit["requested_position"] = pth
-			R.Violation("requested-position-not-pruned@"+src, wit)
+			out.Violation("requested-position-not-pruned@"+src, wit)
 			return false
 		}
 		if !isPruned(o) {
@@ -159,10 +172,10 @@ func checkPositions(src string, body, orig *cell.Cell, requested [][]int, wit ma
 	}
 	if got := count(body, orig); got != expected {
 		wit["requested_positions"], wit["positions_pruned_in_the_proof"], wit["positions_expected"] = min, got, expected
-		R.Violation("pruned-where-not-requested@"+src, wit)
+		out.Violation("pruned-where-not-requested@"+src, wit)
 		return false
 	}
-	R.Count("prune_positions_verified", expected)
+	out.Count("prune_positions_verified", expected)
 	return true
 }
 
@@ -176,18 +189,18 @@ func verifyProof(src string, proof []byte, orig *cell.Cell, wit map[string]any, 
 	roots, _, _, err := rboc.Read(proof)
 	if err != nil {
 		wit["reference_reader"] = err.Error()
-		R.Violation("invalid-proof-boc@"+src, wit)
+		out.Violation("invalid-proof-boc@"+src, wit)
 		return nil, st, false
 	}
 	if len(roots) != 1 {
 		wit["roots"] = len(roots)
-		R.Violation("proof-root-count@"+src, wit)
+		out.Violation("proof-root-count@"+src, wit)
 		return nil, st, false
 	}
 	pr := roots[0]
 	if !pr.Exotic || pr.Type() != cell.MerkleProof || pr.Err() != nil || len(pr.Refs) != 1 {
 		wit["root_type"], wit["root_exotic"], wit["root_bits"] = pr.Type(), pr.Exotic, len(pr.Bits)
-		R.Violation("root-not-merkle-proof@"+src, wit)
+		out.Violation("root-not-merkle-proof@"+src, wit)
 		return nil, st, false
 	}
 	d := pr.Data()
@@ -197,12 +210,12 @@ func verifyProof(src string, proof []byte, orig *cell.Cell, wit map[string]any, 
 	od := orig.DepthAt(0)
 	if !bytes.Equal(d[1:33], oh[:]) {
 		wit["stored_hash"], wit["original_root_hash"] = mon.Hex(d[1:33]), mon.Hex(oh[:])
-		R.Violation("root-hash-mismatch@"+src, wit)
+		out.Violation("root-hash-mismatch@"+src, wit)
 		return nil, st, false
 	}
 	if sd := int(d[33])<<8 | int(d[34]); sd != od {
 		wit["stored_depth"], wit["original_root_depth"] = sd, od
-		R.Violation("root-depth-mismatch@"+src, wit)
+		out.Violation("root-depth-mismatch@"+src, wit)
 		return nil, st, false
 	}
 	body := pr.Refs[0]
@@ -220,7 +233,7 @@ func verifyProof(src string, proof []byte, orig *cell.Cell, wit map[string]any, 
 			// a pruned branch of the source tree: kept or pruned again, it is the same cell
 			if !p.Exotic || !rbits.Equal(p.Bits, o.Bits) || len(p.Refs) != 0 {
 				wit["path"], wit["proof_cell"], wit["source_pruned_branch"] = path, mon.Hex(p.Data()), mon.Hex(o.Data())
-				R.Violation("pruned-branch-of-the-source-tree-changed@"+src, wit)
+				out.Violation("pruned-branch-of-the-source-tree-changed@"+src, wit)
 				ok = false
 				return
 			}
@@ -235,14 +248,14 @@ func verifyProof(src string, proof []byte, orig *cell.Cell, wit map[string]any, 
 		}
 		if o.Exotic && !p.Exotic {
 			wit["path"], wit["original_type"] = path, o.Type()
-			R.Violation("exotic-cell-lost-its-type@"+src, wit)
+			out.Violation("exotic-cell-lost-its-type@"+src, wit)
 			ok = false
 			return
 		}
 		if p.Exotic {
 			if p.Type() != cell.PrunedBranch {
 				wit["path"], wit["type"] = path, p.Type()
-				R.Violation("unexpected-exotic-cell@"+src, wit)
+				out.Violation("unexpected-exotic-cell@"+src, wit)
 				ok = false
 				return
 			}
@@ -250,7 +263,7 @@ func verifyProof(src string, proof []byte, orig *cell.Cell, wit map[string]any, 
 				want := prunedFor(o)
 				wit["path"], wit["pruned_cell"], wit["want"] = path, mon.Hex(p.Data()), mon.Hex(want.Data())
 				wit["replaced_subtree_depth"], wit["replaced_subtree_refs"] = o.Depth(), len(o.Refs)
-				R.Violation("pruned-cell-mismatch/"+what+"@"+src, wit)
+				out.Violation("pruned-cell-mismatch/"+what+"@"+src, wit)
 				ok = false
 				return
 			}
@@ -260,7 +273,7 @@ func verifyProof(src string, proof []byte, orig *cell.Cell, wit map[string]any, 
 		if !rbits.Equal(p.Bits, o.Bits) || len(p.Refs) != len(o.Refs) {
 			wit["path"], wit["proof_cell"], wit["original_cell"] = path, rbits.FiftHex(p.Bits), rbits.FiftHex(o.Bits)
 			wit["proof_refs"], wit["original_refs"] = len(p.Refs), len(o.Refs)
-			R.Violation("cell-differs-from-original@"+src, wit)
+			out.Violation("cell-differs-from-original@"+src, wit)
 			ok = false
 			return
 		}
@@ -276,12 +289,12 @@ func verifyProof(src string, proof []byte, orig *cell.Cell, wit map[string]any, 
 	// the pruned tree as a whole has, at level zero, the hash and depth of the original root
 	if h0 := body.HashAt(0); h0 != oh {
 		wit["pruned_tree_hash_level0"], wit["original_root_hash"] = mon.Hex(h0[:]), mon.Hex(oh[:])
-		R.Violation("pruned-tree-hash-mismatch@"+src, wit)
+		out.Violation("pruned-tree-hash-mismatch@"+src, wit)
 		return nil, st, false
 	}
 	if body.DepthAt(0) != od {
 		wit["pruned_tree_depth_level0"], wit["original_root_depth"] = body.DepthAt(0), od
-		R.Violation("pruned-tree-depth-mismatch@"+src, wit)
+		out.Violation("pruned-tree-depth-mismatch@"+src, wit)
 		return nil, st, false
 	}
 	if requested != nil && !checkPositions(src, body, orig, requested, wit) {
@@ -298,13 +311,13 @@ func verifyProof(src string, proof []byte, orig *cell.Cell, wit map[string]any, 
 		}
 	}); p != nil {
 		wit["panic"] = p.Value
-		R.Violation("panic@"+p.Site+"/DeserializeBoc(proof)/"+src, wit)
+		out.Violation("panic@"+p.Site+"/DeserializeBoc(proof)/"+src, wit)
 		return nil, st, false
 	}
 	ph := pr.Hash()
 	if terr != nil || len(cs) != 1 || !bytes.Equal(th, ph[:]) {
 		wit["err"], wit["tongo_hash"], wit["reference_hash"] = fmt.Sprint(terr), mon.Hex(th), mon.Hex(ph[:])
-		R.Violation("tongo-rereads-proof-differently@"+src, wit)
+		out.Violation("tongo-rereads-proof-differently@"+src, wit)
 		return nil, st, false
 	}
 	delete(wit, "proof_boc")
@@ -1339,14 +1352,19 @@ func treeCase(idx int) {
 }
 
 func main() {
+	if mon.IsWorker() {
+		mon.WorkerMain(map[string]func(*mon.Worker){"shared-prover": sharedWorker})
+	}
 	tier := "quick"
 	if len(os.Args) > 1 {
 		tier = os.Args[1]
 	}
 	R = mon.Start("C18", tier)
-	R.Rule = "dictionary proofs: tlb.ProveKeyInHashmap for every present key (<=64, else 64 sampled) and up to 32 absent keys of each dictionary (widths 8/16/32/64/256, C05's key-set shapes, written by the reference writer with canonical or mixed labels or by tongo, handed over in memory or through a BOC); generic proofs: MerkleProver cursor API over random DAGs/chains/wide trees with 2-5 prune sets each. Every proof is parsed by the strict reference BOC reader (which also re-derives every level mask), its root must be a type-3 cell with hash and depth of the original root, the pruned tree's level-0 hash/depth must equal them, the proof is walked in parallel with the original (pruned cell == 01 01 hash depth of the replaced sub-tree; other cells identical), the key is looked up inside the proof by the reference dictionary reader, tongo re-reads the proof to the same root hash and decodes the same pairs from it; absent key => error. evaluations = proofs requested; distinct = (original root hash, key | prune paths). Added input classes: key widths 13/30/61/96 (not multiples of 8 or 4); augmented dictionaries (HashmapAug: forks with data after the label and a third reference); a comb over the full key width (256 levels); dictionaries whose cells were read to their end before (only the root rewound); dictionaries and trees that already contain pruned branches (level 1: taken out of an earlier proof) - the proof commits to the level-0 hash and depth of the tree it was made from and a pruned branch of the source is kept as it is; cursor API: all children cursors of a node taken first and pruned later, several live cursors of one prover marked before any proof is created, and the positions of the pruned branches in the proof must be exactly the requested positions (minus those below another requested position)"
+	out = R
+	R.Rule = "dictionary proofs: tlb.ProveKeyInHashmap for every present key (<=64, else 64 sampled) and up to 32 absent keys of each dictionary (widths 8/16/32/64/256, C05's key-set shapes, written by the reference writer with canonical or mixed labels or by tongo, handed over in memory or through a BOC); generic proofs: MerkleProver cursor API over random DAGs/chains/wide trees with 2-5 prune sets each. Every proof is parsed by the strict reference BOC reader (which also re-derives every level mask), its root must be a type-3 cell with hash and depth of the original root, the pruned tree's level-0 hash/depth must equal them, the proof is walked in parallel with the original (pruned cell == 01 01 hash depth of the replaced sub-tree; other cells identical), the key is looked up inside the proof by the reference dictionary reader, tongo re-reads the proof to the same root hash and decodes the same pairs from it; absent key => error. evaluations = proofs requested; distinct = (original root hash, key | prune paths). Added input classes: key widths 13/30/61/96 (not multiples of 8 or 4); augmented dictionaries (HashmapAug: forks with data after the label and a third reference); a comb over the full key width (256 levels); dictionaries whose cells were read to their end before (only the root rewound); dictionaries and trees that already contain pruned branches (level 1: taken out of an earlier proof) - the proof commits to the level-0 hash and depth of the tree it was made from and a pruned branch of the source is kept as it is; cursor API: all children cursors of a node taken first and pruned later, several live cursors of one prover marked before any proof is created, and the positions of the pruned branches in the proof must be exactly the requested positions (minus those below another requested position); one prover shared by 8 goroutines (child process): each goroutine proves keys from its own parsed copy of the dictionary cells, or prunes positions of a common pool through its own Cursor(), all starting at the same moment; every proof is verified afterwards by the same oracle, a child that dies with a fatal run-time error is a violation fatal@.../shared-prover"
 	R.Assume("reference models harness/ref/cell, ref/boc, ref/dict are correct: pinned at start-up by the Merkle equations and dictionaries of the repository's real data")
 	R.Assume("source trees have level 0 or 1 (ordinary and library cells, and pruned branches of mask 1 as found in the body of a proof); trees containing Merkle-proof/update cells or pruned branches of higher levels are not tried (pruneCells declares the former unsupported)")
+	R.Assume("a MerkleProver may be used by several goroutines at once as long as each has its own Cursor (and, for ProveKeyInHashmap, its own cell tree to read): the prover is a read-only view of the tree")
 	R.Assume("cursor API: Prune() marks the position of the cursor; the proof has pruned branches exactly at the marked positions that are not below another marked position")
 	eq, cells, err := realdata.SelfCheck(mon.RepoRoot(), true)
 	if err != nil {
@@ -1393,5 +1411,6 @@ func main() {
 	}
 	close(ch)
 	wg.Wait()
+	sectionSharedProver()
 	os.Exit(R.Finish())
 }
